@@ -343,7 +343,7 @@ def run(ctx):
                 'context plus one on a non-accepted id probes routing; non-trivial = request with accepted and '
                 'rejected contexts, or a context whose first proposed syntax is unsupported but a later one is')
     ctx.assumptions = ['any non-zero result code counts as rejection',
-                       'requests carry Application Context first and User Information (Maximum Length first) last',
+                       'requests carry Application Context first and User Information last; a third of the requests has every reserved byte of the PDU, its items and sub-items non-zero',
                        'wire observed through the reference parser (vf/refpdu.py)']
     try:
         parallel(ctx, run_enum, [{'part': i, 'of': 16, 'two': ctx.thorough} for i in range(16)])
